@@ -715,6 +715,21 @@ def fills_through_a_copy(ctx, rule="RV"):
                   bad=bad[0] if bad else "", line=bad[1] if bad else None)
 
 
+def flatten_orders(ctx, rule="RF"):
+    """Every flattening / reshaping in the package is in C order; a function the property consults that flattens or reshapes with another
+    order (order='K', 'F', 'A') enumerates its elements differently from the C-order flattenings and reshapes it is combined with (C04.R1
+    scans the whole package; this is the same scan restricted to the functions of this property, reported under its own id)."""
+    from . import c04
+    finds = {}
+    for qn, line, what in c04.nonc_orders(ctx.pkg, ctx.an):
+        if not what.startswith("UNDECIDED"):
+            finds.setdefault(qn.split(".<locals>")[0], (what, line))
+    for qn in scope(ctx):
+        bad = finds.get(qn)
+        ctx.check(rule, qn + "|flattens-in-C-order", False if bad else True, "no flattening or reshaping in another order than C", fn=qn, nontrivial=False,
+                  bad=("%s: the element order differs from the C-order flattenings / reshapes of the same points elsewhere" % bad[0]) if bad else "", line=bad[1] if bad else None)
+
+
 def late_binding_closures(ctx, rule="RL"):
     """A lambda / nested function created once per iteration of a comprehension or loop, whose body reads the iteration variable as a free
     variable and which is kept as an element of the container being built (dict / list / set value) or appended to one, sees the LAST value
